@@ -58,7 +58,23 @@ pub fn pack(b: &[u8]) -> String {
 fn z(x: i64) -> String { if x < 0 { format!("({x})%Z") } else { format!("{x}%Z") } }
 fn zu(x: u64) -> String { format!("{x}%Z") }
 fn opt(o: Option<String>) -> String { match o { Some(x) => format!("(Some {x})"), None => "None".into() } }
-fn list(v: Vec<String>) -> String { format!("[{}]", v.join("; ")) }
+/// a list; runs of 16 or more equal elements are printed as `rep n (x)` (coq/C02/Run.v), so that a table of 65536 equal
+/// entries stays small as text (coqc elaborates a list literal of that length very slowly or not at all)
+fn list(v: Vec<String>) -> String {
+	if v.len() < 16 { return format!("[{}]", v.join("; ")); }
+	let mut parts: Vec<String> = vec![]; let mut cur: Vec<&str> = vec![]; let mut k = 0;
+	while k < v.len() {
+		let mut j = k + 1; while j < v.len() && v[j] == v[k] { j += 1; }
+		if j - k >= 16 {
+			if !cur.is_empty() { parts.push(format!("[{}]", cur.join("; "))); cur.clear(); }
+			parts.push(format!("rep {} ({})", j - k, v[k]));
+		} else { for x in &v[k..j] { cur.push(x); } }
+		k = j;
+	}
+	if !cur.is_empty() { parts.push(format!("[{}]", cur.join("; "))); }
+	if parts.len() == 1 && parts[0].starts_with('[') { return parts.pop().unwrap(); }
+	format!("({})", parts.join(" ++ "))
+}
 fn nums(s: &str) -> Vec<u64> {
 	let mut v = vec![]; let mut cur: Option<u64> = None;
 	for ch in s.chars() { if let Some(d) = ch.to_digit(10) { cur = Some(cur.unwrap_or(0) * 10 + d as u64); } else if let Some(c) = cur.take() { v.push(c); } }
